@@ -67,7 +67,24 @@ def step_tables():
     return rc == 0, out.strip()
 
 
+def write_coqproject():
+    """_CoqProject lists every .v file under coq/ (sorted); rewritten only when the list changes"""
+    files = []
+    for d, _, fs in os.walk(COQ):
+        for f in fs:
+            if f.endswith(".v") and not f.startswith("."):
+                files.append(os.path.relpath(os.path.join(d, f), COQ))
+    if "Gen/Tables.v" not in files:
+        files.append("Gen/Tables.v")
+    body = "-Q . RU\n-arg -w -arg -notation-overridden,-deprecated-hint-without-locality,-deprecated-instance-without-locality\n" + \
+        "\n".join(sorted(files)) + "\n"
+    cp = os.path.join(COQ, "_CoqProject")
+    if not os.path.exists(cp) or open(cp).read() != body:
+        open(cp, "w").write(body)
+
+
 def ensure_makefile():
+    write_coqproject()
     mk = os.path.join(COQ, "Makefile")
     cp = os.path.join(COQ, "_CoqProject")
     if not os.path.exists(mk) or os.path.getmtime(mk) < os.path.getmtime(cp):
